@@ -38,6 +38,10 @@ class Module:
         except SyntaxError as e:
             raise AnalysisError('module %s does not compile: %s' % (relpath, e))
         self.lines = self.src.split('\n')
+        self.respelled = 0
+        if os.environ.get('VERIF_NO_NORMALISE') != '1':
+            from . import canon
+            self.tree, self.respelled = canon.phase_a(self.tree)
         _annotate(self.tree, self)
 
 
@@ -87,8 +91,21 @@ class Repo:
         if os.path.exists(wrapper):
             self.modules['<wrapper>'] = Module('<wrapper>', wrapper, 'ssh-audit.py')
         self._funcs = None
-        from . import alphanorm
+        from . import alphanorm, canon
         self.normalised = alphanorm.normalise(self)
+        self.respelled = {}
+        if os.environ.get('VERIF_NO_NORMALISE') != '1':
+            self.respelled = canon.phase_c(self)
+            if self.respelled:
+                for m in self.modules.values():
+                    _annotate(m.tree, m)
+                self._funcs = None
+                again = alphanorm.normalise(self)
+                for k, v in again.items():
+                    self.normalised.setdefault(k, {}).update(v)
+            for m in self.modules.values():
+                if m.respelled:
+                    self.respelled['%s:<phase A>' % m.name] = m.respelled
         if self.normalised:
             self._funcs = None
 
@@ -432,7 +449,9 @@ class Reporter:
             'known_findings_reproduced': [f.to_json() for f, _ in listed],
             'unlisted_violations': [f.to_json() for f in unlisted],
             'notes': self.notes,
+            'respelled_constructs': getattr(self.repo, 'respelled', {}) if getattr(self, 'repo', None) is not None else {},
             'alpha_normalised_locals': getattr(repo, 'normalised', {}) if repo else {},
+            'respelled_constructs': getattr(repo, 'respelled', {}) if repo else {},
             'checker_cmd': 'python3 /verif/check.py %s --tier %s' % (self.prop, self.tier),
             'trusted_base': ['CPython ast module (3.11) parses the same language the repo runs', 'rule tables in /verif/props (hand-confirmed against the source)'],
         }
